@@ -41,6 +41,8 @@ func c06Alphabet() []c06Msg {
 		{name: "tools/list(modern,no caps)", method: "tools/list", params: `{"_meta":{"io.modelcontextprotocol/protocolVersion":"2026-07-28"}}`, kind: "modern-invalid"},
 		{name: "tools/list(modern,2099)", method: "tools/list", params: `{"_meta":{"io.modelcontextprotocol/protocolVersion":"2099-01-01","io.modelcontextprotocol/clientCapabilities":{}}}`, kind: "modern-unsupported"},
 		{name: "tools/call(modern,bad clientInfo)", method: "tools/call", params: `{"name":"t","arguments":{},"_meta":{"io.modelcontextprotocol/protocolVersion":"2026-07-28","io.modelcontextprotocol/clientCapabilities":{},"io.modelcontextprotocol/clientInfo":5}}`, kind: "modern-invalid"},
+		{name: "unknown/method(modern)", method: "unknown/method", params: `{` + c06ModernMeta + `}`, kind: "modern-unknown-method"},
+		{name: "tools/call(modern, name not a string)", method: "tools/call", params: `{"name":5,"arguments":{},` + c06ModernMeta + `}`, kind: "modern-bad-params"},
 		{name: "server/discover(modern)", method: "server/discover", params: `{` + c06ModernMeta + `}`, kind: "modern-discover"},
 		{name: "server/discover(no meta)", method: "server/discover", params: `{}`, kind: "removed"},
 		{name: "logging/setLevel", method: "logging/setLevel", params: `{"level":"debug"}`, kind: "feature-setlevel"},
@@ -290,6 +292,12 @@ func c06RunInBubble(msgs []c06Msg, hist []int) verifx.SearchResult {
 				}
 			}
 		case "modern-invalid":
+			r = mustReject(-32602)
+		case "modern-unknown-method":
+			// complete, supported metadata - but the request itself is refused: it must leave no trace
+			r = mustReject(-32601)
+		case "modern-bad-params":
+			gateReject = false // refused while decoding the parameters, which may sit behind the middleware
 			r = mustReject(-32602)
 		case "modern-unsupported":
 			if r = mustReject(-32022); r == nil {
